@@ -208,7 +208,17 @@ def plan(tier, seed):
     for s in which:
       jobs.append({'kind': 'enum', 'name': 'enum%d.%d.%d' % (k, md, s), 'k': k, 'maxdepth': md, 'shard': s, 'nshards': nsh,
                    'complete': run == 'all'})
+  # the "single operator abort arriving at any moment" clause: an abort injected at every yield point of scheduled runs
+  # of the group templates (engine and event-log invariants of C04; only the teardown clauses are attributed to C03)
+  for t in ABORT_TEMPLATES:
+    for via in ('thread', 'signal'):
+      jobs.append({'kind': 'abort-sweep', 'name': 'abort.%s.%s' % (t, via), 'template': t, 'via': via,
+                   'stride': 3 if tier == 'quick' else 1, 'offset': seed % 3 if tier == 'quick' else 0})
   return jobs
+
+
+ABORT_TEMPLATES = ['group', 'nested', 'subtest', 'two-groups', 'swallow']
+ABORT_SIGS = ('C04/teardown-skipped', 'C04/plug-teardown-skipped', 'C04/body-started-after-abort/main', 'C04/body-started-after-abort/setup')
 
 
 def run_job(job, acct):
@@ -216,6 +226,22 @@ def run_job(job, acct):
   if job['kind'] == '_regress':
     from vf import runner  # pylint: disable=g-import-not-at-top
     runner.run_regress(sys.modules[__name__], job, acct)
+  elif job['kind'] == 'abort-sweep':
+    from vf.props import c04  # pylint: disable=g-import-not-at-top
+    c04.setup_lines()
+    base = {'template': job['template'], 'via': job['via'], 'plan': {}}
+    r0, s0 = c04.check(base)
+    inj = ['wake', 'aborter0'] if job['via'] == 'thread' else 'SIGINT'
+    for k in range(job['offset'], s0.k, job['stride']):
+      case = dict(base, plan={str(k): inj})
+      r, _ = c04.check(case)
+      acct.case({'abort_sweep': case}, r.nontrivial, ['abort-sweep', 'template:' + job['template']])
+      for sig, detail in r.violations:
+        if sig in ABORT_SIGS:
+          sig3 = sig.replace('C04/', 'C03/abort/')
+          (acct.known if sig3 in known else acct.violation)(sig3, {'abort_sweep': case}, detail)
+    if job['stride'] == 1:
+      acct.exhaustive_parts.append('%s via %s: one abort at every one of %d yield points' % (job['template'], job['via'], s0.k))
   elif job['kind'] == 'hyp':
     strat = progs.programs(strict=False, with_test_start=False, cfg=CFG).map(with_plug)
     hyp.search(acct, strat, check, seed=job['hseed'], max_examples=job['n'], known=known)
@@ -235,4 +261,8 @@ def run_job(job, acct):
 
 
 def replay(case):
+  if 'abort_sweep' in case:
+    from vf.props import c04  # pylint: disable=g-import-not-at-top
+    c04.setup_lines()
+    return [(s.replace('C04/', 'C03/abort/'), d) for s, d in c04.check(case['abort_sweep'])[0].violations if s in ABORT_SIGS]
   return check(case).violations
